@@ -2,6 +2,7 @@ package main
 
 import (
 	"fmt"
+	"github.com/uhn/ggql/pkg/ggql"
 	"strings"
 )
 
@@ -184,5 +185,62 @@ func init() {
 		for i := 0; i < n; i++ {
 			c10Case(o, rng.Fork())
 		}
+		c10Reflect(o)
+	}
+}
+
+// ---- reflection-bound methods: required arguments left out ---------------------------------------------
+//
+// Fixed table, every run.  Under the reflection strategy a field bound to a Go method gets its arguments
+// positionally; an argument that is left out must still be refused when it is required, and the method must not
+// be called with a made-up value in its place.
+
+type c10RQ struct{ calls *[]string }
+
+func (q *c10RQ) Greet(name string, loud bool) string {
+	*q.calls = append(*q.calls, fmt.Sprintf("greet(%q,%v)", name, loud))
+	return "hello " + name
+}
+func (q *c10RQ) Sum(a int32, b int32) int32 {
+	*q.calls = append(*q.calls, fmt.Sprintf("sum(%d,%d)", a, b))
+	return a + b
+}
+func (q *c10RQ) Me() *c10RQ { return q }
+
+type c10RSchema struct{ Query *c10RQ }
+
+var c10RTable = []struct {
+	doc    string
+	vars   map[string]interface{}
+	refuse string // name of the required argument that must be reported; "" = the method is called
+}{
+	{`{ greet(name: "x", loud: true) }`, nil, ""},
+	{`{ greet(loud: true) }`, nil, "name"},
+	{`{ me { greet(loud: false) } }`, nil, "name"},
+	{`{ sum(b: 2) }`, nil, "a"},
+	{`{ sum(a: 1) }`, nil, "b"},
+	{`{ sum(a: 1, b: 2) }`, nil, ""},
+	{`query($n: String){ greet(name: $n, loud: true) }`, nil, "name"},
+	{`query($n: String){ greet(name: $n, loud: true) }`, map[string]interface{}{"n": "v"}, ""},
+	{`{ greet(name: null, loud: true) }`, nil, "name"},
+}
+
+func c10Reflect(o *Out) {
+	for _, e := range c10RTable {
+		var calls []string
+		q := &c10RQ{calls: &calls}
+		root := ggql.NewRoot(&c10RSchema{Query: q})
+		if err := root.ParseString("type Query { greet(name: String!, loud: Boolean): String sum(a: Int!, b: Int!): Int me: Query }"); err != nil {
+			panic(err)
+		}
+		res := safeResolve(root, e.doc, "", e.vars)
+		hasErr := res["errors"] != nil
+		o.Count("reflection required-argument cases")
+		o.Emit(Case{
+			Term:       N("c10r", S(e.doc), B(e.refuse != "")),
+			Obs:        N("obs", B(len(calls) > 0), B(hasErr)),
+			Meta:       map[string]interface{}{"doc": e.doc, "response": fmt.Sprintf("%v", res), "calls": fmt.Sprintf("%v", calls)},
+			Nontrivial: true,
+		})
 	}
 }
